@@ -8,6 +8,12 @@ import "time"
 // verifNetTimeout overrides NetTimeout() when > 0 (verification harness only).
 var verifNetTimeout time.Duration
 
+// verifHeartbeat overrides NetHeartbeatInterval() when > 0 (verification harness only).
+var verifHeartbeat time.Duration
+
+// VerifSetHeartbeat makes the keep-alive interval short enough to exercise it.
+func VerifSetHeartbeat(d time.Duration) { verifHeartbeat = d }
+
 // VerifSetNetTimeout makes network timeouts short enough to exercise them.
 func VerifSetNetTimeout(d time.Duration) { verifNetTimeout = d }
 
